@@ -356,7 +356,7 @@ pub fn run(ctx: &RunCtx) -> PropResult {
     let runf = |c: &ToolCase, d: &Path| run_tool(c, d, &findings);
     run_replays::<ToolCase, _>(ctx, "tools", &ctx.verif_dir.join("replays").join("C16"), runf, &mut report);
     let runf = |c: &ToolCase, d: &Path| run_tool(c, d, &findings);
-    run_generated(ctx, "tools", ctx.tier.pick(2500, 60_000), tool_strategy, runf, &sample, &mut report);
+    run_generated(ctx, "tools", ctx.tier.pick(5000, 60_000), tool_strategy, runf, &sample, &mut report);
     PropResult {
         report,
         level: "fault_enumeration",
